@@ -3,7 +3,8 @@
 Rule R5 (class invariant): every public mutator maps WF states to WF states at normal exit, hence WF
 holds after every history. P: the users-index primitives against their contracts; _emplace_gate /
 _add_gate / add_gate / emplace_gate for gates of ARBITRARY arity (prefix-count loop invariant),
-remove_gate (incl. blocks), rename_gate (c19_rename.py), mark_as_output, set_outputs, delete_block — all on an arbitrary WF circuit.
+remove_gate (incl. blocks), rename_gate (c19_rename.py), into_bench (c14_loop.py), mark_as_output, set_outputs, set_inputs, add_inputs,
+order_inputs / order_outputs with utils.order_list (c02_order.py), delete_block — all on an arbitrary WF circuit.
 B: histories of all public mutators incl. connect_circuit family, replace_subcircuit, copy (vlib/bounded/C02.py)."""
 import z3
 
@@ -251,12 +252,114 @@ class DeleteBlock(CircuitContract):
             yield ('no-raise', z3.BoolVal(False), {'raised': n, 'witness': 'raises-' + n})
 
 
+class AllGatesLoop:
+    """for cur_gate in self.gates.values(): if cur_gate.gate_type == INPUT and cur_gate.label not in inputs: raise …
+    (no state change; the gates enumerated so far that are inputs are among the requested labels)"""
+
+    def __init__(self, h, items):
+        self.h, self.items = h, items
+
+    def applies(self, it, env, iterable):
+        if isinstance(iterable, CM.GateValues):
+            self.y = iterable.enumeration(it)[0]
+            return True
+        return False
+
+    def havoc(self, it, env):
+        pass
+
+    def inv(self, it, env, k):
+        S0 = self.h.S
+        i = z3.Int('i!ag')
+        y = self.y
+        return [('enumerated-inputs-are-requested',
+                 z3.ForAll([i], z3.Implies(z3.And(i >= 0, i < k, S0.typ(y(i)) == GT['INPUT']), z3.Or([y(i) == x for x in self.items]) if self.items else z3.BoolVal(False))))]
+
+
+class SetInputs(CircuitContract):
+    """set_inputs(inputs) for a list of k <= 3 labels on an arbitrary WF circuit: succeeds exactly when the labels are
+    pairwise distinct and are exactly the INPUT gates of the circuit; then the input list is the argument"""
+    qualname = 'Circuit.set_inputs'
+
+    def __init__(self, k):
+        self.k = k
+        self.name = f'set_inputs/{k}labels'
+
+    def setup(self, it, ctx):
+        c, h = self.circuit(it, ctx)
+        items = [z3.Const(f'in{i}', LabelSort) for i in range(self.k)]
+        it.loop_specs[(CIRC + '::Circuit.set_inputs', 1)] = AllGatesLoop(h, items)
+        return [c, VList([Sym(x) for x in items])], {}, {'h': h, 'S0': h.S, 'items': items}
+
+    def valid(self, S0, items):
+        l = z3.Const('l!si', LabelSort)
+        listed = lambda x: z3.Or([x == y for y in items]) if items else z3.BoolVal(False)
+        return z3.And([z3.And(S0.dom(x), S0.typ(x) == GT['INPUT']) for x in items] + ([z3.Distinct(*items)] if len(items) > 1 else []) +
+                      [z3.ForAll([l], z3.Implies(z3.And(S0.dom(l), S0.typ(l) == GT['INPUT']), listed(l)))])
+
+    def post(self, it, ctx, result, st):
+        h, S0, items = st['h'], st['S0'], st['items']
+        yield from self.wf_post(it, ctx, h, rank=S0.rank)
+        S1 = h.S
+        yield ('accepted-only-valid-requests', self.valid(S0, items))
+        yield ('inputs-are-the-argument', z3.And([S1.in_n == len(items)] + [S1.in_elem(z3.IntVal(j)) == x for j, x in enumerate(items)]))
+        yield ('frame', state_eq(ctx, S1, S0, GATES + USERS + ['out_n', 'out_elem', 'out_cnt'] + BLK))
+
+    def on_raise(self, it, ctx, exc, st):
+        n = self.exc_name(exc)
+        if n == 'CircuitValidationError':
+            yield ('raise/only-invalid-requests', z3.Not(self.valid(st['S0'], st['items'])), {'raised': n})
+            yield ('raise/state-untouched', state_eq(ctx, st['h'].S, st['S0'], ALL))
+        else:
+            yield ('no-raise', z3.BoolVal(False), {'raised': n, 'witness': 'raises-' + n})
+
+
+class AddInputs(CircuitContract):
+    """add_inputs(labels) for k <= 2 labels: succeeds exactly when the labels are new and pairwise distinct; each becomes
+    an INPUT gate without operands, appended to the input list in order; nothing else changes"""
+    qualname = 'Circuit.add_inputs'
+
+    def __init__(self, k):
+        self.k = k
+        self.name = f'add_inputs/{k}labels'
+
+    def setup(self, it, ctx):
+        c, h = self.circuit(it, ctx)
+        items = [z3.Const(f'new{i}', LabelSort) for i in range(self.k)]
+        return [c, VList([Sym(x) for x in items])], {}, {'h': h, 'S0': h.S, 'items': items}
+
+    def post(self, it, ctx, result, st):
+        h, S0, items = st['h'], st['S0'], st['items']
+        yield from self.wf_post(it, ctx, h, rank=lambda l: z3.If(z3.Or([l == x for x in items]) if items else z3.BoolVal(False), 0, S0.rank(l)))
+        S1 = h.S
+        yield ('accepted-only-new-distinct-labels', z3.And([z3.Not(S0.dom(x)) for x in items] + ([z3.Distinct(*items)] if len(items) > 1 else [])))
+        for j, x in enumerate(items):
+            yield (f'label{j}-is-an-input', z3.And(S1.dom(x), S1.typ(x) == GT['INPUT'], S1.nops(x) == 0, S1.in_elem(S0.in_n + j) == x))
+        l, y = ctx.fresh(LabelSort, 'lf'), ctx.fresh(LabelSort, 'yf')
+        j = ctx.fresh(I, 'jf')
+        other = z3.And([l != x for x in items]) if items else z3.BoolVal(True)
+        yield ('inputs-extended', z3.And(S1.in_n == S0.in_n + len(items), z3.Implies(z3.And(j >= 0, j < S0.in_n), S1.in_elem(j) == S0.in_elem(j))))
+        yield ('frame/other-gates', z3.Implies(other, z3.And(S1.dom(l) == S0.dom(l), S1.typ(l) == S0.typ(l), S1.nops(l) == S0.nops(l), S1.op(l, j) == S0.op(l, j), S1.opc(l, y) == S0.opc(l, y))))
+        yield ('frame/outputs-blocks', state_eq(ctx, S1, S0, ['out_n', 'out_elem', 'out_cnt'] + BLK))
+
+    def on_raise(self, it, ctx, exc, st):
+        n = self.exc_name(exc)
+        items, S0 = st['items'], st['S0']
+        if n == 'CircuitValidationError':
+            dup = z3.Or([items[a] == items[b] for a in range(len(items)) for b in range(a + 1, len(items))]) if len(items) > 1 else z3.BoolVal(False)
+            yield ('raise/some-label-exists-or-is-repeated', z3.Or(dup, z3.Or([S0.dom(x) for x in items]) if items else z3.BoolVal(False)), {'raised': n})
+        else:
+            yield ('no-raise', z3.BoolVal(False), {'raised': n, 'witness': 'raises-' + n})
+
+
 def contracts():
     from .c19_rename import RenameGate
     from .c14_loop import IntoBench
-    return [RenameGate(), IntoBench(), UserPrim('_add_user'), UserPrim('_remove_user'),
+    from .c02_order import OrderList, OrderInOut
+    order = [OrderList(k) for k in (0, 1, 2, 3)] + [OrderInOut(w, k) for w in ('in', 'out') for k in (0, 1, 2)]
+    return order + [RenameGate(), IntoBench(), UserPrim('_add_user'), UserPrim('_remove_user'),
             AddGateLike('_emplace_gate', False), AddGateLike('_add_gate', False), AddGateLike('emplace_gate', True), AddGateLike('add_gate', True),
-            RemoveGate(), MarkAsOutput(), SetOutputs(), DeleteBlock()]
+            RemoveGate(), MarkAsOutput(), SetOutputs(), DeleteBlock()] + [SetInputs(k) for k in (0, 1, 2, 3)] + [AddInputs(k) for k in (0, 1, 2)]
 
 
 
@@ -267,8 +370,8 @@ def run(rep):
                                             'background lemmas on tuples: count view = full prefix count; prefix counts are monotone']
     for a in STD_ASSUME:
         rep.assume(a)
-    rep.assume('P covers _add_user, _remove_user, _emplace_gate, _add_gate, emplace_gate, add_gate, remove_gate/_remove_gate, rename_gate, mark_as_output, set_outputs, delete_block; '
-               'the remaining mutators (set_inputs, add_inputs, replace_inputs [C19], order_*, make_block*, connect_circuit family, replace_subcircuit, remove_block, __copy__) are bounded-only here '
+    rep.assume('P covers _add_user, _remove_user, _emplace_gate, _add_gate, emplace_gate, add_gate, remove_gate/_remove_gate, rename_gate, into_bench, mark_as_output, set_outputs, set_inputs (<=3 labels), add_inputs (<=2 labels), order_inputs/order_outputs (utils.order_list, requested prefix <=3, lists of any length), delete_block; '
+               'the remaining mutators (replace_inputs [C19], make_block*, connect_circuit family, replace_subcircuit, remove_block, __copy__) are bounded-only here '
                '(into_bench: loop proved here against the contract of convert_gate, whose clauses are discharged per gate type under C14)')
     it = new_interp()
     pv = Prover(rep, it, 'C02')
